@@ -685,7 +685,10 @@ func (g *gen) loopMods(ci *cfgInfo, h *ssa.BasicBlock) (map[string]bool, bool) {
 					mods[c] = true
 				}
 				mods["nalloc"] = true
-			case *ssa.MapUpdate, *ssa.Send:
+			case *ssa.MapUpdate:
+				vc, hc, _, _ := g.mapComps(x.Map.Type().Underlying().(*types.Map))
+				mods[vc], mods[hc] = true, true
+			case *ssa.Send:
 			}
 		}
 	}
